@@ -20,6 +20,11 @@ def malloc_generic_pairs():
 def queue_pairs():
     Q = lambda n, f: dict(name=n, entry="h_" + n, harness="harness/page_queue.c", enforce=f, label="P", functions=[f], timeout=300, unwind=20, replace=["mi_heap_queue_first_update/c_first_update_rec"])
     return [Q("queue_remove", "mi_page_queue_remove"), Q("queue_push", "mi_page_queue_push"), Q("queue_enqueue_from", "mi_page_queue_enqueue_from_ex")]
+def page_free_pairs():
+    return [dict(name="page_free", entry="h_page_free", harness="harness/page_free.c", enforce="_mi_page_free", label="P", functions=["_mi_page_free"], timeout=300, unwind=20, objbits=10,
+                 replace=["mi_page_queue_remove/c_queue_remove_rec", "_mi_segment_page_free"]),
+            dict(name="page_retire", entry="h_page_retire", harness="harness/page_free.c", enforce="_mi_page_retire", label="P", functions=["_mi_page_retire", "mi_page_queue_of"], timeout=300, unwind=20, objbits=10, solver="cadical",   # (pq - heap->pages) divides by 24: minisat does not finish, cadical 5 s
+                 replace=["_mi_page_free/c_page_free_rec"])]
 def find_page_pair():
     return dict(name="find_page", entry="h_find_page", harness="harness/find_page.c", enforce="mi_find_page", label="P", functions=["mi_find_page"], timeout=300, unwind=14,
                 replace=["mi_large_huge_page_alloc/c_large_huge_rec", "mi_find_free_page/c_find_free_rec"])
